@@ -69,7 +69,7 @@ func genSPDXNode(t *rapid.T, id string) *sbom.Node {
 		if n.Hashes == nil {
 			n.Hashes = map[int32]string{}
 		}
-		n.Hashes[int32(rapid.IntRange(0, 17).Draw(t, "algo"))] = tx.Draw(t, "hv")
+		n.Hashes[int32(rapid.IntRange(0, 17).Draw(t, "algo"))] = hashValue(t, "hv", tx) // hexadecimal digests (a writer may leave out anything else)
 	}
 	for i := rapid.IntRange(0, 4).Draw(t, "ni"); i > 0; i-- {
 		if n.Identifiers == nil {
@@ -86,7 +86,7 @@ func genSPDXNode(t *rapid.T, id string) *sbom.Node {
 		er := &sbom.ExternalReference{Url: erURL, Comment: tx.Draw(t, "ercm"), Authority: tx.Draw(t, "erau"),
 			Type: sbom.ExternalReference_ExternalReferenceType(rapid.IntRange(0, nExtRefTypes-1).Draw(t, "ert"))}
 		if rapid.Bool().Draw(t, "erh") {
-			er.Hashes = map[int32]string{int32(rapid.IntRange(1, 12).Draw(t, "erha")): tx.Draw(t, "erhv")}
+			er.Hashes = map[int32]string{int32(rapid.IntRange(1, 12).Draw(t, "erha")): hashValue(t, "erhv", tx)}
 		}
 		n.ExternalReferences = append(n.ExternalReferences, er)
 	}
@@ -209,7 +209,7 @@ func spdxProj(n *sbom.Node, wildcard bool) proj {
 	}
 	p["hashes"] = joinSorted(hs)
 	if n.Type == sbom.Node_FILE {
-		p["file_types"] = joinSorted(filterStrings(n.FileTypes, func(s string) bool { return spdxFileTypes[s] }))
+		p["file_types"] = joinSorted(dedupe(filterStrings(n.FileTypes, func(s string) bool { return spdxFileTypes[s] })))
 		return p
 	}
 	p["attribution"] = joinSorted(dedupe(filterStrings(n.Attribution, func(s string) bool { return s != "" })))
@@ -392,7 +392,7 @@ func TestC01Sweep(t *testing.T) {
 		for _, indent := range []int{0, 1, 4, 8} {
 			hx.Eval()
 			doc := sbom.NewDocument()
-			doc.Metadata.Id = "urn:doc"
+			doc.Metadata.Id, doc.Metadata.Name = "urn:doc", "sweep"
 			doc.NodeList.Nodes = []*sbom.Node{{Id: "a", Name: "a"}, {Id: "b", Name: "b", Type: sbom.Node_FILE}}
 			doc.NodeList.Edges = []*sbom.Edge{{From: "a", Type: sbom.Edge_Type(et), To: []string{"b", "a"}}}
 			doc.NodeList.RootElements = []string{"a"}
@@ -411,8 +411,8 @@ func TestC01Sweep(t *testing.T) {
 		for _, file := range []bool{false, true} {
 			hx.Eval()
 			doc := sbom.NewDocument()
-			doc.Metadata.Id = "urn:doc"
-			n := &sbom.Node{Id: "a", Name: "a", Hashes: map[int32]string{a: "00ff"}}
+			doc.Metadata.Id, doc.Metadata.Name = "urn:doc", "sweep"
+			n := &sbom.Node{Id: "a", Name: "a", Hashes: map[int32]string{a: "00ff00ff00ff00ff00ff00ff00ff00ff00ff00ff"}}
 			if file {
 				n.Type = sbom.Node_FILE
 			}
@@ -431,7 +431,7 @@ func TestC01Sweep(t *testing.T) {
 	for p := range spdxNativePurpose {
 		hx.Eval()
 		doc := sbom.NewDocument()
-		doc.Metadata.Id = "urn:doc"
+		doc.Metadata.Id, doc.Metadata.Name = "urn:doc", "sweep"
 		doc.NodeList.Nodes = []*sbom.Node{{Id: "a", Name: "a", PrimaryPurpose: []sbom.Purpose{p, sbom.Purpose_DATA}, Identifiers: map[int32]string{1: "pkg:a/b@1", 2: "cpe:/a", 3: "cpe:2.3:a", 4: "gitoid:blob:sha1:00"}}, {Id: "z"}}
 		d2, out, err := roundTrip(doc, formats.SPDX23JSON, 2)
 		if err == nil {
